@@ -36,8 +36,11 @@ def agg(desc):
     return out
 
 
-def mon_c01(run):
+def mon_c01(run, world=None):
     bad = []
+    # loaded / pending work profiles hold resources too (Clockwork): then only the capacity bound is checked here,
+    # the exact ledger equality is C04's
+    has_profiles = bool(world) and any("loading_strategies" in p for p in world["workload"]["profiles"])
     resident = {}          # task -> (worker, request by name)
     for e in run["log"]:
         if e[0] != "worker" or e[5] != "ok":
@@ -61,7 +64,7 @@ def mon_c01(run):
                 bad.append("worker %s: allocated %s of %s %s after %s %s" % (w, alloc, total, name, op, t))
             if demand.get(name, 0) > total:
                 bad.append("worker %s: resident tasks demand %s %s, capacity %s" % (w, demand.get(name, 0), name, total))
-            if demand.get(name, 0) != alloc:
+            if demand.get(name, 0) != alloc and not has_profiles:
                 bad.append("worker %s: ledger says %s %s allocated, resident strategies demand %s (after %s %s)"
                            % (w, alloc, name, demand.get(name, 0), op, t))
     return bad
